@@ -163,6 +163,19 @@ def via_mhtml_nonstandard(markup):
     return next(read_mhtml(io.BytesIO(body.encode("utf-8")))).content
 
 
+def via_mhtml_header_object(markup):
+    """A proper single-part MIME message whose Content-Transfer-Encoding value carries a non-ASCII byte: `part.get(...)` is then an
+    `email.header.Header` object, not a str (recorded finding C17-mhtml-decode-content-raises-on-header-object)."""
+    from sharepoint2text.parsing.extractors.mhtml_extractor import read_mhtml
+    body = (b"From: <Saved by Test>\r\nSubject: t\r\nMIME-Version: 1.0\r\nContent-Type: text/html; charset=\"utf-8\"\r\n"
+            b"Content-Transfer-Encoding: 8bit\xe9\r\n\r\n" + markup.encode("utf-8") + b"\r\n")
+    return next(read_mhtml(io.BytesIO(body))).content
+
+
+def header_object_wrappers():
+    return [("read_mhtml (MIME message, non-ASCII transfer-encoding header)", via_mhtml_header_object)]
+
+
 def via_msg(markup):
     from sharepoint2text.parsing.extractors.mail.msg_email_extractor import _html_to_text
     return _html_to_text(markup)
@@ -997,7 +1010,8 @@ def find(req):
     kw = (req.get("witness") or {}) if req.get("known_finding") else {}
     if kw.get("markup_builder"):
         d = globals()[kw["markup_builder"]["fn"]]()[kw["markup_builder"]["index"]]
-        return check_markup(d, only=tuple(kw.get("only") or ()) or None) or {"reproduced": False, "note": "recorded document now agrees with the region spec"}
+        ws = globals()[kw["wrappers"]]() if kw.get("wrappers") in ("header_object_wrappers",) else None
+        return check_markup(d, only=tuple(kw.get("only") or ()) or None, wrappers=ws) or {"reproduced": False, "note": "recorded document now agrees with the region spec"}
     for d in regex_derived_docs(ob):           # directed: what the (changed) module matches textually
         if "<title>" in d:
             continue
